@@ -15,6 +15,7 @@ LEVEL_TEXT["C20"] = (
     "models run bit-for-bit against the real objects (framed signals, state across calls, constructor guards at and just outside their bounds). "
     "Measured only (long double oracle on the implementation): Float rounding (gain may exceed 1 by a few ulp: bound 1e-12), the 1 % AGC level after the fill transient, "
     "the 0.01 dB sweep at the knee edges (1e-8 dB), 10 %..90 % rise/fall time = fs*t +- 2 samples."
+    " REGENERATED TIE (Props/C20Gen): besides the gain computers, the constructors (incl. default arguments) and process loop bodies of Compressor / Limiter / NoiseGate, MAFilter and Agc (real and complex) are translated from the C++ on every run and proved equal to the models (*Ctor_eq, *Step_eq, *_run_eq); the gain-range, limiter-ceiling and Agc max-gain theorems are restated from the generated constructor through the generated run (*_gen_from_ctor*). "
 )
 
 PROPS["C20"] = {
@@ -26,7 +27,7 @@ PROPS["C20"] = {
     "technique": "Lean 4 proofs over the reals about gain computers regenerated from the C++ AST (cxx2lean) and hand-written sample-loop models, "
                  "+ bit-level correspondence of the models with the real objects + long-double oracle of the documented characteristic on the implementation",
     "level_note": "Float rounding is not modelled (theorems are exact over the reals; the oracle measures the gap: gain <= 1 + 1e-12, curve within 1e-8 dB, ceiling within 1e-12 relative); "
-                  "the sample loops / constructors / NoiseGate / MAFilter / Agc models are hand-written and validated by the correspondence run only; "
+                  "the sample loops / constructors / NoiseGate / MAFilter / Agc models are hand-written, proved equal to the REGENERATED constructors and loop bodies (Props/C20Gen) and additionally validated by the correspondence run; "
                   "the constructors' smoothing coefficient exp(-ln 9/(fs*t)) is modelled with the explicit branch t = 0 -> 0 (IEEE exp(-inf)); sample rate > 0 is a hypothesis (not checked by the constructors)",
     "rule": "CORR: random parameter sets over the whole quantifier box (thresholds -50..0, ratios 1..50, knees 0..20, times 0 / sub-sample / 1e-4..4 s, rates 8k..192k, corners forced), "
             "short framed signals with levels at / next to the knee edges and the gate threshold, extreme finite amplitudes, constructor guards at and just outside every bound, "
@@ -42,7 +43,7 @@ PROPS["C20"] = {
             "a subset of the AGC arbitrary-signal cases (short windows every sample, windows 333 / 1000 decimated) goes through CORR; statistics count the samples whose recurrent power sum is below -eps (the class of the repaired NaN defect); "
             "distinct = distinct protocol lines / oracle evaluations (each a different parameter-signal pair); non-trivial = all",
     "trusted_base": TB_COMMON + [
-        "Model/Dynamics.lean sample loops, constructors (incl. the explicit t = 0 branch of the smoothing coefficient), NoiseGate, MAFilter, Agc: hand-written, tied by the correspondence run (bit-exact so far)",
+        "Model/Dynamics.lean sample loops, constructors (t <= 0 gives coefficient 0, as the repaired code writes it), NoiseGate, MAFilter, Agc: hand-written, proved equal to the regenerated code (Props/C20Gen) and tied by the correspondence run (bit-exact so far)",
         "glibc log10 / pow / exp / log are the same functions at Float in the Lean driver and in the C++ build (observed: 0 ulp difference on all correspondence cases)",
         "long double (x87 80-bit) log10l / powl / expl as the reference arithmetic of the oracle",
     ],
